@@ -8,6 +8,7 @@ from hypothesis import strategies as st
 from .. import env, gen, simreactor, wire
 from ..core import HarnessError
 from ..hyp import run_given
+from . import c01
 
 LEVEL = 'exploration'
 RULE = ('Lists of 1-60 datapoints (whitespace-free names incl. reserved punctuation and non-ASCII; timestamps in [0, 2^32) '
@@ -63,7 +64,9 @@ def cases(draw):
           'batch': draw(st.one_of(st.integers(1, n + 1), st.sampled_from([1, 2, 3, 500]))),
           'cuts': draw(st.lists(st.integers(1, 4000), max_size=8)),
           # a TCP-like transport that pauses its producer from inside write() once this many bytes are pending
-          'pause_after': draw(st.sampled_from([None, None, 40, 300, 4000]))}
+          'pause_after': draw(st.sampled_from([None, None, 40, 300, 4000])),
+          # the receiving daemon pauses / resumes its receivers (back-pressure) while the stream arrives
+          'flow': draw(c01.flow_events(n))}
 
 
 def execute(ctx, case):
@@ -127,6 +130,7 @@ def execute(ctx, case):
   else:
     env.reset()
   rec = env.Recorder(b.events.metricReceived)
+  c01.FlowControl(b, case.get('flow'))
   lst = wire.Listener(proto)
   lst.feed(data, [c for c in case['cuts'] if 0 < c < len(data)])
   if lst.escaped:
